@@ -140,11 +140,19 @@ def noIdClash (ka : Key) : List Node → Bool
   | [] => true
   | y :: ys => ys.all (fun z => !(keyMatch ka y z)) && noIdClash ka ys
 
+/-- the record carries the identity key and its identity value is a scalar -/
+def hasScalarIdentity (ka : Key) (x : Node) : Bool :=
+  match keyVal ka x with
+  | some (.scalar _ _) => true
+  | _ => false
+
 mutual
-/-- **Unique identity keys, at every pair of record lists the comparison of `l` with `r` reaches**:
-following the recursion of `_diff_between` (mapping entries with the same key, list elements at the
-same position), wherever two lists are synchronised by identity key every left record carries the
-identity key (first key of the first right record) and no two right records share an identity value.
+/-- **Unique identity keys, at every pair of record lists the comparison of `l` with `r` can reach**:
+following the recursion of `_diff_between` — mapping entries with the same key, list elements at the
+same position, under value synchronisation every pair of `==`-equal elements, under `deep` every pair
+of records with equal identity values —, wherever two lists are synchronised by identity key every
+left record carries the identity key (first key of the first right record; under `deep` with a scalar
+identity value) and no two right records share an identity value.
 Decidable; its negation is the class of finding C06-K2. -/
 def idOk (c : Cfg) : Node → Node → Bool
   | .map _ es, .map _ fs => idOkEntries c es fs
@@ -152,6 +160,8 @@ def idOk (c : Cfg) : Node → Node → Bool
     match listMode c xs ys with
     | .posDeep => idOkPos c xs ys
     | .key => xs.all (hasIdentity (keyAttr ys)) && noIdClash (keyAttr ys) ys
+    | .value => idOkVal c xs ys
+    | .deep => (xs.all (hasScalarIdentity (keyAttr ys)) && noIdClash (keyAttr ys) ys) && idOkDeep c (keyAttr ys) xs ys
     | _ => true
   | _, _ => true
 def idOkEntries (c : Cfg) : List (Key × Node) → List (Key × Node) → Bool
@@ -163,6 +173,14 @@ def idOkEntries (c : Cfg) : List (Key × Node) → List (Key × Node) → Bool
 def idOkPos (c : Cfg) : List Node → List Node → Bool
   | x :: xs, y :: ys => idOk c x y && idOkPos c xs ys
   | _, _ => true
+/-- value synchronisation: every pair the synchroniser can match (`==`-equal elements) -/
+def idOkVal (c : Cfg) : List Node → List Node → Bool
+  | [], _ => true
+  | x :: xs, ys => ys.all (fun y => !(eqv y x) || idOk c x y) && idOkVal c xs ys
+/-- `deep`: every pair of records with equal identity values -/
+def idOkDeep (c : Cfg) (ka : Key) : List Node → List Node → Bool
+  | [], _ => true
+  | x :: xs, ys => ys.all (fun y => !(keyMatch ka x y) || idOk c x y) && idOkDeep c ka xs ys
 end
 
 /-- `a` is `p` or lies below `p` -/
